@@ -52,6 +52,12 @@ hidc.add_argument(
 
 
 def main():
+    # Literals, folded constants and the bounds of wide words are Python
+    # integers of any size; CPython's limit on int <-> str conversion
+    # would otherwise escape as a ValueError while emitting them.
+    if hasattr(sys, 'set_int_max_str_digits'):
+        sys.set_int_max_str_digits(0)
+
     args = hidc.parse_args()
     if args.word_size % 8 != 0 or args.word_size < 0:
         hidc.error('Word size must be divisible by 8')
